@@ -171,6 +171,7 @@ type scenCfg struct {
 	Alt     []integ    // integrations of r1 after a reload that changes the receiver (nil: reloads keep it)
 	R2      []integ    // integrations of receiver r2 (never changed)
 	Inhibit bool
+	AltNoIv bool  // every other reload takes the mute / active intervals off the routes (and the next puts them back)
 	AGC     int64 // the provider's alert GC interval in ms (0: never within a scenario)
 }
 
@@ -191,6 +192,21 @@ func (c scenCfg) event(windows []inst.Window, wait, maxwait int64) map[string]an
 		"integs": c.allIntegs(c.Integs), "inhibit": c.Inhibit, "rt": int64(resolveTimeout / time.Millisecond),
 		"windows": windows, "wait": wait, "maxwait": maxwait, "agc": c.AGC,
 	}
+}
+
+// routeRecs are the child routes as the observer specification takes them.
+func (c scenCfg) routeRecs() []map[string]any {
+	return c.event(nil, 0, 0)["routes"].([]map[string]any)
+}
+
+// withoutIntervals is the configuration with every route's mute / active intervals removed.
+func (c scenCfg) withoutIntervals() scenCfg {
+	c2 := c
+	c2.Routes = append([]routeCfg{}, c.Routes...)
+	for i := range c2.Routes {
+		c2.Routes[i].Mute, c2.Routes[i].Active = nil, nil
+	}
+	return c2
 }
 
 func (c scenCfg) allIntegs(r1 []integ) []integ {
@@ -412,6 +428,7 @@ func genScenario(rng *rand.Rand) (scenCfg, []envEvent, []inst.Window, time.Durat
 	case 0:
 		all.Mute = []tiv{mkiv("m1")}
 		cfg.Routes = []routeCfg{all}
+		cfg.AltNoIv = rng.Intn(2) == 0
 	case 1:
 		all.Mute = []tiv{mkiv("m1"), mkiv("m2")}
 		cfg.Routes = []routeCfg{all}
@@ -423,6 +440,7 @@ func genScenario(rng *rand.Rand) (scenCfg, []envEvent, []inst.Window, time.Durat
 		all.Active = []tiv{mkiv("a1"), {Name: "a2", From: 0, To: 2 * 60000}}
 		cfg.Routes = []routeCfg{all}
 	case 4, 7, 9: // one of several routes is muted for a while
+		cfg.AltNoIv = rng.Intn(2) == 0
 		cfg.Routes[0].Mute = []tiv{mkiv("m1")}
 	case 10:
 		cfg.Routes[2].Active = []tiv{{Name: "a1", From: 0, To: (1 + rng.Int63n(max(hmin, 1))) * 60000}}
@@ -542,6 +560,20 @@ func genScenario(rng *rand.Rand) (scenCfg, []envEvent, []inst.Window, time.Durat
 			envEvent{at: tr, kind: "post", a: a, mode: "resolve"},
 			envEvent{at: tr + time.Duration(200+rng.Intn(1500))*time.Millisecond, kind: "reload"})
 	}
+	if cfg.AltNoIv && len(cfg.Routes[0].Mute) > 0 {
+		// a group is muted by its route's interval, then a reload takes the interval off the route:
+		// the following flushes notify and the API no longer reports the group as muted
+		iv := cfg.Routes[0].Mute[0]
+		from := time.Duration(iv.From) * time.Millisecond
+		mt := cfg.maxT()
+		a := map[string]string{"ALL": "A2", "G1": "A2", "NOA": "A4"}[cfg.Routes[0].Sel]
+		if a != "" && time.Duration(iv.To-iv.From)*time.Millisecond > mt.gw+mt.gi+20*time.Second {
+			rl := from + mt.gw + mt.gi + time.Duration(3+rng.Intn(10))*time.Second + 41*time.Millisecond
+			evs = append(evs, envEvent{at: from + time.Second + 43*time.Millisecond, kind: "post", a: a, mode: "fire"},
+				envEvent{at: rl, kind: "reload"},
+				envEvent{at: rl + mt.gw + mt.gi + 5*time.Second + 44*time.Millisecond, kind: "post", a: a, mode: "fire"})
+		}
+	}
 	if cfg.Inhibit && rng.Intn(3) == 0 {
 		// two reloads with a garbage collection of the alert store (every 30 minutes) between them,
 		// then an inhibiting source and its target: the inhibitor started by the second reload must
@@ -658,6 +690,7 @@ func TestScenarios(t *testing.T) {
 			}
 			synctest.Wait()
 			var silIDs []string
+			stripped := false // the running configuration has its intervals removed
 			type silRec struct {
 				ms    string
 				start time.Time
@@ -738,9 +771,16 @@ func TestScenarios(t *testing.T) {
 							cur = cfg.Integs
 						}
 					}
-					lg.Add(inst.Event{Ev: "reloading", Data: map[string]any{"integs": cfg.allIntegs(cur)}})
+					if cfg.AltNoIv {
+						stripped = !stripped
+					}
+					rc := cfg
+					if stripped {
+						rc = cfg.withoutIntervals()
+					}
+					lg.Add(inst.Event{Ev: "reloading", Data: map[string]any{"integs": rc.allIntegs(cur), "routes": rc.routeRecs()}})
 					reloading.Store(true)
-					if err := in.Reload(cfg.yaml(cur)); err != nil {
+					if err := in.Reload(rc.yaml(cur)); err != nil {
 						t.Fatalf("reload: %v", err)
 					}
 					reloading.Store(false)
